@@ -350,6 +350,10 @@ pub struct Variant {
     pub arch: Arch,
     pub os: Os,
     pub techs: &'static [Tech],
+    /// part of the full per-frame technique x size product ("mix" space of C04). Variants that
+    /// differ from a `mix` variant only in an OS the architecture's walker does not look at are
+    /// covered by the uniform and placement spaces only.
+    pub mix: bool,
 }
 impl Variant {
     pub fn label(&self) -> String {
@@ -360,15 +364,18 @@ impl Variant {
 /// CPU x OS configurations of C04 (the OS matters to the walker only on amd64 and arm; the x86
 /// variant carries the STACK WIN techniques).
 pub const VARIANTS: &[Variant] = &[
-    Variant { arch: Arch::X86, os: Os::Windows, techs: &[Tech::Cfi, Tech::Fp, Tech::Scan, Tech::WinFd, Tech::WinFpo] },
-    Variant { arch: Arch::Amd64, os: Os::Linux, techs: &[Tech::Cfi, Tech::Fp, Tech::Scan] },
-    Variant { arch: Arch::Amd64, os: Os::Windows, techs: &[Tech::Cfi, Tech::Fp, Tech::Scan] },
-    Variant { arch: Arch::Arm, os: Os::Android, techs: &[Tech::Cfi, Tech::Scan, Tech::Leaf] },
-    Variant { arch: Arch::Arm, os: Os::Ios, techs: &[Tech::Cfi, Tech::Fp, Tech::Scan, Tech::Leaf] },
-    Variant { arch: Arch::Arm64, os: Os::MacOs, techs: &[Tech::Cfi, Tech::Fp, Tech::Scan, Tech::Leaf] },
-    Variant { arch: Arch::Arm64Old, os: Os::Ios, techs: &[Tech::Cfi, Tech::Fp, Tech::Scan, Tech::Leaf] },
-    Variant { arch: Arch::Mips32, os: Os::Linux, techs: &[Tech::Cfi, Tech::Scan, Tech::Leaf] },
-    Variant { arch: Arch::Mips64, os: Os::Linux, techs: &[Tech::Cfi, Tech::Scan, Tech::Leaf] },
+    Variant { arch: Arch::X86, os: Os::Windows, techs: &[Tech::Cfi, Tech::Fp, Tech::Scan, Tech::WinFd, Tech::WinFpo], mix: true },
+    Variant { arch: Arch::Amd64, os: Os::Linux, techs: &[Tech::Cfi, Tech::Fp, Tech::Scan], mix: true },
+    Variant { arch: Arch::Amd64, os: Os::Windows, techs: &[Tech::Cfi, Tech::Fp, Tech::Scan], mix: true },
+    Variant { arch: Arch::Arm, os: Os::Android, techs: &[Tech::Cfi, Tech::Scan, Tech::Leaf], mix: true },
+    Variant { arch: Arch::Arm, os: Os::Ios, techs: &[Tech::Cfi, Tech::Fp, Tech::Scan, Tech::Leaf], mix: true },
+    Variant { arch: Arch::Arm64, os: Os::MacOs, techs: &[Tech::Cfi, Tech::Fp, Tech::Scan, Tech::Leaf], mix: true },
+    Variant { arch: Arch::Arm64Old, os: Os::Ios, techs: &[Tech::Cfi, Tech::Fp, Tech::Scan, Tech::Leaf], mix: true },
+    Variant { arch: Arch::Mips32, os: Os::Linux, techs: &[Tech::Cfi, Tech::Scan, Tech::Leaf], mix: true },
+    Variant { arch: Arch::Mips64, os: Os::Linux, techs: &[Tech::Cfi, Tech::Scan, Tech::Leaf], mix: true },
+    // 48-bit address spaces (modules and stacks above 2^47) are a Linux / Android thing
+    Variant { arch: Arch::Arm64, os: Os::Android, techs: &[Tech::Cfi, Tech::Fp, Tech::Scan, Tech::Leaf], mix: false },
+    Variant { arch: Arch::Arm64Old, os: Os::Linux, techs: &[Tech::Cfi, Tech::Fp, Tech::Scan, Tech::Leaf], mix: false },
 ];
 
 /// Frame-size menu (words). choice 0: small; 1: the scan-window edge (return address in the
@@ -422,6 +429,9 @@ pub struct Program {
     /// (technique by which the walker must get from frame i to frame i+1, frame size in words)
     pub frames: Vec<(Tech, u64)>,
     pub style: u64,
+    /// index into the placement menu (`placement_of`): where modules and stack sit in the address
+    /// space and in which order the module list names the modules
+    pub placement: u64,
 }
 
 #[derive(Clone, Debug)]
@@ -457,6 +467,56 @@ impl Built {
     }
 }
 
+/// Order in which the module list handed to the walker names the modules.
+#[derive(Clone, Copy, Debug, PartialEq, Eq)]
+pub enum ListOrder {
+    /// ascending base address
+    Ascending,
+    /// descending base address
+    Descending,
+    /// ascending, rotated left by one: the lowest module comes last, the highest is neither
+    /// first nor last when there are three modules
+    Rotated,
+}
+
+/// Module / stack placement: a module layout a process of the architecture can have.
+#[derive(Clone, Copy, Debug)]
+pub struct Placement {
+    pub name: &'static str,
+    /// base address of module "m" and (styles with two modules) of module "n"
+    pub mods: [u64; 2],
+    /// base address of a bystander module "z": loaded, no symbols, no function of the chain in it
+    pub bystander: Option<u64>,
+    /// base address of the stack memory
+    pub stack: u64,
+    pub order: ListOrder,
+}
+pub const PLACEMENTS: u64 = 4;
+/// Placement menu. 0: low addresses, address-ordered list (the layout of the mix / uniform
+/// spaces). 1: the same addresses plus a bystander below, list in descending order. 2: the top of
+/// the architecture's user address space (32-bit: 0xf000_0000 / stack 0xff00_0000, MIPS32 below
+/// 2^31; amd64: 0x7ff8_0000_0000 / 0x7ffc_0000_0000, canonical; arm64: 48-bit addresses
+/// 0xffff_8000_0000 / 0xffff_f000_0000, above the 47-bit pointer-authentication default, where
+/// stripping has to keep bit 47; MIPS64: 40-bit), address-ordered. 3: "m" low like a main
+/// executable, "n", a bystander and the stack at the top as in 2, the list rotated so that the
+/// lowest module comes last (load order rather than address order).
+pub fn placement_of(arch: Arch, placement: u64) -> Placement {
+    let (exe, hi_mod, hi_stack): (u64, u64, u64) = match arch {
+        Arch::X86 | Arch::Arm => (0x0040_0000, 0xf000_0000, 0xff00_0000),
+        Arch::Mips32 => (0x0040_0000, 0x7000_0000, 0x7ff0_0000),
+        Arch::Amd64 => (0x0055_5000_0000, 0x7ff8_0000_0000, 0x7ffc_0000_0000),
+        Arch::Arm64 | Arch::Arm64Old => (0x0055_5000_0000, 0xffff_8000_0000, 0xffff_f000_0000),
+        Arch::Mips64 => (0x0055_5000_0000, 0x00ff_e000_0000, 0x00ff_ff00_0000),
+    };
+    match placement {
+        0 => Placement { name: "low", mods: [MOD_BASE, MOD_BASE + MOD_SIZE], bystander: None, stack: STACK_BASE, order: ListOrder::Ascending },
+        1 => Placement { name: "low, bystander below, list descending", mods: [MOD_BASE, MOD_BASE + MOD_SIZE], bystander: Some(0x3000_0000), stack: STACK_BASE, order: ListOrder::Descending },
+        2 => Placement { name: "top of address space", mods: [hi_mod, hi_mod + MOD_SIZE], bystander: None, stack: hi_stack, order: ListOrder::Ascending },
+        3 => Placement { name: "executable low, rest at top, list rotated (lowest last)", mods: [exe, hi_mod], bystander: Some(hi_mod + 0x0100_0000), stack: hi_stack, order: ListOrder::Rotated },
+        _ => panic!("harness: placement {placement} not in the menu"),
+    }
+}
+
 pub const MOD_BASE: u64 = 0x4000_0000;
 pub const MOD_SIZE: u64 = 0x0008_0000;
 pub const STACK_BASE: u64 = 0x6000_0000;
@@ -476,6 +536,8 @@ pub fn build(prog: &Program) -> Result<Built, Infeasible> {
     assert!(d >= 1 && d <= 64, "harness: depth");
     let (_, nmods) = style_of(prog.style, 0);
     let nmods = nmods as usize;
+    let pl = placement_of(a, prog.placement);
+    let stack_base = pl.stack;
     let has_fp_tech = match a {
         Arch::X86 | Arch::Amd64 | Arch::Arm64 | Arch::Arm64Old => true,
         Arch::Arm => v.os == Os::Ios,
@@ -524,7 +586,7 @@ pub fn build(prog: &Program) -> Result<Built, Infeasible> {
             st[i].slack = st[i].slack.min(max_k);
         }
     }
-    let mut sp = vec![STACK_BASE + LEAD_WORDS * p];
+    let mut sp = vec![stack_base + LEAD_WORDS * p];
     for i in 0..d {
         sp.push(sp[i] + size[i] * p);
     }
@@ -539,7 +601,7 @@ pub fn build(prog: &Program) -> Result<Built, Infeasible> {
     };
     // ---- modules and functions
     let mod_name = |k: usize| if k == 0 { "m".to_string() } else { "n".to_string() };
-    let mod_base = |k: usize| MOD_BASE + k as u64 * MOD_SIZE;
+    let mod_base = |k: usize| pl.mods[k];
     let frel = |i: usize| 0x1000 * ((i / nmods) as u64 + 1);
     let faddr = |i: usize| mod_base(i % nmods) + frel(i);
     let pc0 = faddr(0) + 0x10;
@@ -569,7 +631,7 @@ pub fn build(prog: &Program) -> Result<Built, Infeasible> {
     for (k, w) in words.iter_mut().enumerate().take(LEAD_WORDS as usize) {
         *w = 0x0bad_0000 + k as u64; // red zone below sp: not an address in any module
     }
-    let widx = |addr: u64| ((addr - STACK_BASE) / p) as usize;
+    let widx = |addr: u64| ((addr - stack_base) / p) as usize;
     let tag = |i: usize, val: u64| if st[i].pac && val != 0 { val | PAC_BITS } else { val };
     for i in 0..d {
         if tech(i) == Tech::Leaf {
@@ -593,7 +655,7 @@ pub fn build(prog: &Program) -> Result<Built, Infeasible> {
         }
     }
     let bytes = words_to_bytes(&words, p);
-    let readable = |addr: u64| read_word(STACK_BASE, &bytes, p, addr).is_some();
+    let readable = |addr: u64| read_word(stack_base, &bytes, p, addr).is_some();
     // ---- symbol text
     let names = [a.fp(), a.cs()[0], a.cs()[1]];
     let mut sym: Vec<String> = (0..nmods).map(|k| format!("MODULE Linux x 000000000000000000000000000000000 {}\n", mod_name(k))).collect();
@@ -766,9 +828,34 @@ pub fn build(prog: &Program) -> Result<Built, Infeasible> {
     if let Some(lr) = a.lr() {
         regs.push((lr, if tech(0) == Tech::Leaf { ra(0) } else { 0x0bad_beef }));
     }
-    let modules = (0..nmods).map(|k| (mod_name(k), mod_base(k), MOD_SIZE)).collect();
+    let mut modules: Vec<(String, u64, u64)> = (0..nmods).map(|k| (mod_name(k), mod_base(k), MOD_SIZE)).collect();
+    if let Some(z) = pl.bystander {
+        modules.push(("z".to_string(), z, MOD_SIZE));
+    }
+    modules.sort_by_key(|m| m.1);
+    match pl.order {
+        ListOrder::Ascending => {}
+        ListOrder::Descending => modules.reverse(),
+        ListOrder::Rotated => modules.rotate_left(1),
+    }
+    // ---- placement sanity (harness preconditions, not properties of the walker)
+    let stack_end = stack_base + total_words * p;
+    assert!(stack_end - 1 <= a.top(), "harness: stack past the end of the address space");
+    for (n, b, s) in &modules {
+        assert!(b + s - 1 <= a.top(), "harness: module {n} past the end of the address space");
+        assert!(b + s <= stack_base || *b >= stack_end, "harness: module {n} overlaps the stack");
+        // only generated return addresses may point into a module (scanning must find nothing else)
+        assert!(n != "z" || words.iter().all(|w| *w < *b || *w >= b + s), "harness: a stack word points into the bystander module");
+    }
+    if matches!(a, Arch::Arm64 | Arch::Arm64Old) {
+        // documented pointer-auth strip mask: all bits up to the highest bit of
+        // max(2^47 - 1, end of the highest module); every true address must survive it
+        let hi = modules.iter().map(|m| m.1 + m.2).max().unwrap_or(0).max((1 << 47) - 1);
+        let mask = hi.checked_next_power_of_two().map(|b| b - 1).unwrap_or(!0);
+        assert!(stack_end <= mask && PAC_BITS & mask == 0, "harness: placement not representable under the documented strip mask");
+    }
     let symbols = (0..nmods).map(|k| (mod_name(k), sym[k].clone())).collect();
-    Ok(Built { arch: a, os: v.os, regs, base: STACK_BASE, bytes, modules, symbols, expected })
+    Ok(Built { arch: a, os: v.os, regs, base: stack_base, bytes, modules, symbols, expected })
 }
 
 pub fn describe_program(prog: &Program) -> serde_json::Value {
@@ -778,6 +865,7 @@ pub fn describe_program(prog: &Program) -> serde_json::Value {
         "depth": prog.frames.len(),
         "frames": prog.frames.iter().map(|(t, s)| format!("{}:{}w", t.name(), s)).collect::<Vec<_>>(),
         "style": prog.style,
+        "placement": format!("{}: {}", prog.placement, placement_of(v.arch, prog.placement).name),
     })
 }
 
